@@ -41,6 +41,8 @@ OPTION_SETS = [
     ('hoist-only', dict(OFF, hoist_literals=True)),
     ('no-rename', dict(rename_locals=False, hoist_literals=True)),
     ('all-off', dict(OFF)),
+    ('keep-annotations', dict(remove_annotations=False)),
+    ('keep-annotations-globals', dict(remove_annotations=False, rename_globals=True)),
 ]
 
 # ---------------------------------------------------------------------------------------------------------------------
@@ -102,12 +104,20 @@ PROGRAMS += [
     "__all__=['exported_one','exported_two']\n__all__=sorted(__all__)\ndef exported_one():\n    return 1\ndef exported_two():\n    return exported_one()+1\ndef internal_helper():\n    return exported_two()\nprint(internal_helper(),__all__)",
     "__all__=['exported_one']\n__all__+=['exported_two']\ndef exported_one():\n    return 1\ndef exported_two():\n    return exported_one()+1\nprint(exported_two(),__all__)",
     "__all__: list=['exported_one']\ndef exported_one():\n    return 1\nprint(exported_one(),__all__)",
+    # the same name bound by several imports / several binding forms, with few uses
+    "try:\n    from os.path import basename_missing as chosen_function\nexcept ImportError:\n    from os.path import basename as chosen_function\nprint(chosen_function('/a/b'))",
+    "def importer():\n    try:\n        from json import dumps\n    except ImportError:\n        from json import dumps\n    return dumps([1])\nprint(importer())",
+    "def importer(flag):\n    if flag:\n        import json\n    else:\n        import json\n    import os.path\n    return json.dumps(os.path.basename('/x/y'))\nprint(importer(1))",
+    "def handler_names():\n    try:\n        raise ValueError('first text')\n    except ValueError as caught_error:\n        saved=str(caught_error)\n    try:\n        raise KeyError('k')\n    except KeyError as caught_error:\n        saved+=str(caught_error)\n    return saved\nprint(handler_names())",
+    # annotations kept (the annotation of *args / **kwargs is evaluated in the enclosing scope)
+    "Tag=int\ndef annotated(first: Tag, *rest: Tag, key: Tag=1, **extra: Tag) -> Tag:\n    Tag='local text value'\n    return first+key+len(rest)+len(extra),Tag\nprint(annotated(1,2,3,key=4,z=5))",
     # lambdas with star arguments and walrus targets
     "def lambdas():\n    collect=lambda *gathered_items, **gathered_options: (gathered_items,sorted(gathered_options))\n    compute=lambda: (assigned_inside:=5)+assigned_inside\n    nested=lambda: [element_value*2 for element_value in range(3)]\n    return collect(1,k=2),compute(),nested()\nprint(lambdas())",
 ]
 
 # every hoistable-looking literal kind x number of uses x scope (the cost decision is per literal and count)
-for _lit in ("'ab'", "'abcdef'", "b'ab'", 'None', 'True', 'False', '0.0', '1.0', '0', '1', '10.5', '1e100', '1j', '...', "''", "'a'"):
+for _lit in ("'ab'", "'abcdef'", "b'ab'", 'None', 'True', 'False', '0.0', '1.0', '0', '1', '10.5', '1e100', '1j', '...', "''", "'a'", "'\u2713'", "'\u00e9\u00e9'",
+             "'\U0001f600'", "'\\n\\t'", "b'\\xff'", "'\x7f'"):
     for _k in (2, 3, 4, 5, 6, 9):
         PROGRAMS.append('def repeated():\n    return [%s]\nprint(repeated())' % ','.join([_lit] * _k))
         if _k in (3, 6):
@@ -413,6 +423,7 @@ def main(argv):
                     fails.append({'oracle': 'preserve', 'options': 'rename_globals with __all__', 'input': src, 'failure': 'name %s listed in __all__ was renamed: %r' % (nm, outg[:200])})
         for nm, kw in tests:
             cases += 1
+            kw = dict(kw, remove_annotations=False)
             # the caller's list objects must come back unchanged, and a second call with the same objects gives the same output
             given = dict((k, (list(v) if isinstance(v, list) else v)) for k, v in kw.items())
             try:
@@ -478,7 +489,7 @@ def main(argv):
         if a != b:
             fails.append({'oracle': 'freeze', 'options': label, 'input': STAR_IMPORT, 'failure': 'identifiers changed in a module with a star import: %s' % sorted(set(a) ^ set(b))})
     if only:
-        fails = [f for f in fails if f['oracle'] == only]
+        fails = [f for f in fails if f['oracle'] in only.split(',')]
     print(json.dumps({'cases': cases, 'failures': fails[:60], 'n_failures': len(fails),
                       'by_oracle': dict((o, len([f for f in fails if f['oracle'] == o])) for o in sorted(set(f['oracle'] for f in fails)))}))
 
